@@ -496,6 +496,60 @@ pub fn run(ctx: &mut Ctx) {
     });
 
     // ------------------------------------------------ datagrams of several records
+    // ------------------------------------------------ records holding the MAXIMUM number of messages the record cap allows
+    // (12-byte handshake messages with empty bodies, 2-byte alerts, 1-byte ChangeCipherSpec), and around it
+    ctx.floor("max-count.records", 10);
+    ctx.sweep("max-message-counts", 12, |ctx, idx| {
+        let mut r = Rng::new(idx ^ 0xD715);
+        let (ct, n): (u8, usize) = match idx {
+            0 => (0x16, 16640 / 12),      // 1386 empty ServerHelloDone
+            1 => (0x16, 16384 / 12 + 1),  // 1366
+            2 => (0x16, 16384 / 12),      // 1365
+            3 => (0x16, 1364),
+            4 => (0x16, 1024),
+            5 => (0x16, 1025),
+            6 => (0x15, 8320),            // 16640 / 2
+            7 => (0x15, 8193),
+            8 => (0x15, 8192),
+            9 => (0x14, 16640),
+            10 => (0x14, 16385),
+            _ => (0x14, 16384),
+        };
+        let msgs: Vec<ADtlsMsg> = (0..n)
+            .map(|k| match ct {
+                0x16 => ADtlsMsg::Hs(ADtlsHs::whole(k as u16, if k % 5 == 4 { ADtlsBody::ClientKeyExchange(vec![]) } else { ADtlsBody::ServerDone(vec![]) })),
+                0x15 => ADtlsMsg::Alert(1 + (k % 2) as u8, (k % 251) as u8),
+                _ => ADtlsMsg::Ccs,
+            })
+            .collect();
+        let mut w = W::new();
+        for m in &msgs {
+            m.enc(&mut w);
+        }
+        let h = gen::dtls_hdr(&mut r, ct);
+        let mut input = refenc::dtls_record(&h, &w.b);
+        let el = input.len();
+        input.extend_from_slice(&[0xEE, 0xEE]);
+        let exp: Vec<DTLSMessage> = msgs.iter().map(|m| m.expected()).collect();
+        let got = ctx.guarded("parse_dtls_plaintext_record", &input[..40], || {
+            let r = parse_dtls_plaintext_record(&input);
+            let out = classify(&r);
+            (out, r.as_ref().ok().map(|(_, v)| (v.messages.len(), veq(&v.messages, &exp))))
+        });
+        if let Some((out, m)) = got {
+            ctx.eval();
+            ctx.shape(&("max-count", ct, n, out.class()));
+            if m == Some((n, true)) && out.rem_is_suffix(&input, el) {
+                ctx.count("max-count.records");
+            } else {
+                ctx.violation(
+                    format!("c10:record:max-message-count:ct=0x{:02x}", ct),
+                    json!({"content_type": ct, "messages_encoded": n, "messages_returned": m.map(|x| x.0), "values_equal": m.map(|x| x.1), "outcome": out.show(), "payload_len": w.b.len()}),
+                );
+            }
+        }
+    });
+
     let n = ctx.tier.pick(8000, 80000);
     ctx.family("datagrams", n, |ctx, case: &mut Case| {
         let r = &mut case.rng;
